@@ -117,6 +117,23 @@ def _classify(emitted, declared, exact):
     return "workwire-attrs" if all(k in fd for k in fe) else None
 
 
+def _toffoli_vs_mcx3(emitted, declared):
+    """True when the only discrepancy is Toffoli counted where a 3-wire MultiControlledX is declared (or the reverse): the
+    generated controlled(...) wrapper declares controlled_resource_rep(MCX) = MCX with one more control, while qp.ctrl of a
+    CNOT-like MCX emits the Toffoli class.  Used only to name the mechanism."""
+    def split(d):
+        tm, rest = 0, {}
+        for k, v in d.items():
+            sk = str(k)
+            if sk == "Toffoli" or sk.startswith("MultiControlledX(wires=AbstractWires(3)"):
+                tm += v
+            else:
+                rest[k] = v
+        return tm, rest
+    (te, re_), (td, rd) = split(emitted), split(declared)
+    return te == td and te > 0 and re_ == rd
+
+
 _PER_MECH = {}
 
 
@@ -197,6 +214,8 @@ def run(ctx):  # noqa: C901
                          if emitted.get(k, 0) != declared.get(k, 0)}
                 cl = _classify(emitted, declared, True)
                 mech = f"{cl}:{_family(rule.name)}" if cl else f"count:{_mech_name(tagkey, rule.name)}"
+                if not cl and _base_rule(rule.name) != rule.name and _toffoli_vs_mcx3(emitted, declared):
+                    mech = "count:wrapped:toffoli-vs-mcx3"
                 _viol(ctx, "resources.exact", f"{tagkey}::{rule.name} on {info['op']}: emitted gate counts differ from the declared "
                                                  f"exact resources; (emitted, declared) per type: {wrong}",
                               case=info, mech=mech, observed=info["emitted"], expected=info["declared"])
